@@ -29,7 +29,7 @@ CELL = {'f32': ('f32', 1), 'f64': ('f64', 1), 'i32': ('i32', 1), 'i64': ('i64', 
 ESZ = {'f32': 4, 'f64': 8, 'i32': 4, 'i64': 8, 'bool': 1, 'i8': 1, 'i16': 2}
 
 WIT_HEADER = '#include <Fastor/Fastor.h>\n#include <complex>\n#include <array>\n#include <vector>\nusing namespace Fastor;\n'
-REF_HEADER = '#include <cmath>\n#include <cstdint>\n#include <cstdlib>\n#include <cstring>\n#include <algorithm>\n#include <limits>\n'
+REF_HEADER = '#include <complex>\n#include <cmath>\n#include <cstdint>\n#include <cstdlib>\n#include <cstring>\n#include <algorithm>\n#include <limits>\n'
 
 
 def prod(xs):
